@@ -879,8 +879,8 @@ class C15(Property):
         "decides_hasAtLeast", "decides_hasAtMost", "decides_hasBetween",
         "decides_setWithKnownFields", "decides_setWithAllFields", "decides_luhn10")]
     generated_obligations = []
-    quick_n = 4000
-    thorough_n = 120000
+    quick_n = 100000
+    thorough_n = 500000
     trusted_base = [
         "the element view (value, u, label, siblings, raw keys, resolved field paths) is read off the real element by the harness and re-asserted on every run",
         "urllib.parse.urlparse/urlunparse and the idna codec are opaque: their results on the element's value are inputs of the model (IsEmail/URL* are covered by correspondence + oracle only)",
